@@ -247,6 +247,13 @@ def parse_obj(path, want_raw=False):
 
 # ------------------------------------------------------------------------------------------------ values
 
+def pkey(o):
+    """provenance key of a register operand: 64-bit GPR name or vector register number"""
+    if o in SUB:
+        return SUB[o]
+    return vnum(o.split('{')[0])
+
+
 def val_add(v, k):
     if v is None:
         return None
@@ -303,13 +310,20 @@ def vjoin(a, b):
     return ('S', u)
 
 
+PV_COPY = {'mov', 'movzx', 'movsxd', 'movdqa', 'movdqu', 'movaps', 'movups', 'vmovdqa', 'vmovdqu', 'vmovdqa64', 'vmovdqa32', 'vmovdqu64',
+           'vmovdqu32', 'vmovdqu16', 'vmovdqu8', 'vmovaps', 'vmovups', 'movd', 'movq', 'vmovd', 'vmovq', 'pextrw', 'vpextrw', 'pextrd',
+           'vpextrd', 'pextrq', 'vpextrq', 'pextrb', 'vpextrb', 'vpshuflw', 'vpshufhw', 'vpshufd', 'vpbroadcastw', 'vpbroadcastd',
+           'vpbroadcastq', 'vpbroadcastb', 'vpshufb', 'vpsrldq', 'vpslldq', 'vpermq', 'vpermilps'}
+PV_KEEP = {'add', 'sub', 'and', 'or', 'shl', 'shr', 'sar', 'inc', 'dec', 'bswap', 'neg', 'not', 'imul', 'psrldq', 'pslldq'}
+PV_SELF2 = {'pshuflw', 'pshufhw', 'pshufd', 'pshufb', 'punpcklwd', 'punpckldq', 'punpcklqdq'}
+PV_SUB = {'psubw', 'vpsubw', 'psubd', 'vpsubd', 'psubq', 'vpsubq'}
 MC_TOP = (0, M64, frozenset(), 0, 0)   # (lo, hi, excluded constants, bits known set, bits known clear)
 
 
 class St:
-    __slots__ = ('r', 's', 'fl', 'v', 'df', 'u', 'mc')
+    __slots__ = ('r', 's', 'fl', 'v', 'df', 'u', 'mc', 'pv')
 
-    def __init__(s, r, sl, fl, v=frozenset(), df=0, u=frozenset(range(32)), mc=None):
+    def __init__(s, r, sl, fl, v=frozenset(), df=0, u=frozenset(range(32)), mc=None, pv=None):
         s.r = r      # gpr values
         s.s = sl     # stack slots {('SP',off)|('F',id,off): value}
         s.fl = fl    # flags fact
@@ -317,9 +331,11 @@ class St:
         s.df = df    # 0 clear, 1 set, 2 unknown
         s.u = u      # vector registers not known to be zero if they were non-zero at entry (for must-clean summaries)
         s.mc = mc if mc is not None else {}   # {(base value, disp): (lo, hi, frozenset(excluded))} memory-cell constraints
+        s.pv = pv if pv is not None else {}   # provenance {gpr name | vector number: frozenset(addresses of the (v)phminposuw
+        #                                       instructions the value may be derived from by copies / extracts / broadcasts; '*' = or other)}
 
     def copy(s):
-        return St(dict(s.r), dict(s.s), s.fl, s.v, s.df, s.u, dict(s.mc))
+        return St(dict(s.r), dict(s.s), s.fl, s.v, s.df, s.u, dict(s.mc), dict(s.pv))
 
 
 class FuncResult(dict):
@@ -399,8 +415,14 @@ def analyse_func(name, entry, insns, summaries, thresholds, vec_entry_dirty=Fals
                     nmc[k] = j
         if nmc != old.mc:
             changed = True
+        npv = {}
+        for k in set(old.pv) | set(st.pv):
+            a_, b_ = old.pv.get(k), st.pv.get(k)
+            npv[k] = (a_ | b_) if (a_ is not None and b_ is not None) else ((a_ or b_) | {'*'})
+        if npv != old.pv:
+            changed = True
         if changed:
-            states[to] = St(nr, ns, fl, nv, df, nu, nmc)
+            states[to] = St(nr, ns, fl, nv, df, nu, nmc, npv)
             work.append(to)
 
     while True:
@@ -697,6 +719,42 @@ def analyse_func(name, entry, insns, summaries, thresholds, vec_entry_dirty=Fals
                     st.u = st.u | {dvn}
         if mn in MXCSR_INSNS and collect:
             special.append((a, mn))
+        # ---- provenance of lane-minimum values
+        if ops and mn not in ('call', 'ret', 'jmp') and mn not in JCC and mn not in NOWRITE:
+            dk = pkey(ops[0])
+            if dk is not None:
+                srcs = [pkey(o) for o in ops[1:]]
+                pv_ = st.pv
+                if mn in ('phminposuw', 'vphminposuw'):
+                    pv_[dk] = frozenset([a])
+                elif mn in PV_SUB and len(ops) >= 2:
+                    sk = srcs[-1]
+                    if sk is not None and sk in pv_ and collect:
+                        notes.append(('minsub', a, sorted(pv_[sk], key=str)))
+                    pv_.pop(dk, None)
+                elif mn in PV_COPY and len(ops) >= 2 and srcs[0] is not None and (ops[0] in GPR64 or WID.get(ops[0], 8) >= 4 or vnum(ops[0]) is not None):
+                    if srcs[0] in pv_:
+                        pv_[dk] = pv_[srcs[0]]
+                    else:
+                        pv_.pop(dk, None)
+                elif mn in PV_KEEP and (len(ops) == 1 or srcs[0] is None and parse_mem(ops[1]) is None):
+                    pass
+                elif mn in PV_SELF2 and len(ops) >= 2:
+                    # two-operand SSE shuffles: dst = f(src) (pshuflw x, x, imm) or dst = f(dst, mask)
+                    if len(ops) == 3 and srcs[0] is not None:
+                        if srcs[0] in pv_:
+                            pv_[dk] = pv_[srcs[0]]
+                        else:
+                            pv_.pop(dk, None)
+                elif mn.startswith('cmov') and len(ops) == 2:
+                    if srcs[0] is not None and (dk in pv_ or srcs[0] in pv_):
+                        pv_[dk] = pv_.get(dk, frozenset(['*'])) | pv_.get(srcs[0], frozenset(['*']))
+                    elif srcs[0] is None:
+                        pv_.pop(dk, None)
+                else:
+                    pv_.pop(dk, None)
+                if mn == 'xchg' and len(ops) == 2 and srcs[0] is not None:
+                    pv_.pop(srcs[0], None)
         # ---- control flow
         if mn in ('ret', 'rep_ret', 'retq'):
             check_exit('ret')
@@ -754,6 +812,8 @@ def analyse_func(name, entry, insns, summaries, thresholds, vec_entry_dirty=Fals
             argv = {r: regs[r] for r in ARGREGS} if collect else None
             if collect:
                 notes.append(('call', a, tgt, argv))
+                if any(r in st.pv for r in ARGREGS):
+                    notes.append(('callpv', a, tgt, {r: sorted(st.pv[r], key=str) for r in ARGREGS if r in st.pv}))
             sm = summaries.get(tgt)
             if sm and 'gprw' in sm:
                 # known assembly callee: only the registers it (transitively) writes are lost; callee-saved registers it
@@ -772,6 +832,7 @@ def analyse_func(name, entry, insns, summaries, thresholds, vec_entry_dirty=Fals
                 if sm.get('df', 0):
                     st.df = 2
             st.fl = None
+            st.pv = {k: v for k, v in st.pv.items() if k in CALLEE}
             flow(nxt, st)
             continue
         newfl = None
